@@ -12,6 +12,8 @@ R19.wguard  every mutable use of X._ptr[...] (write, non-const method, escape in
 R19.wprop   _writable is initialised from the aliased source's flag (or false), a const-pointer source gives false,
             views built from another array's storage pass the source's flag; _writable is assigned nowhere else
 R19.inv     a constructor that allocates fresh storage leaves _indices null
+R19.own     a constructor that refers to another array's storage (_ptr(src._ptr), _table(src._table)) takes that array's
+            owner as well (_handle / _tableHandle / _refcount from the same source)
 R19.tuple   PyTuple_GetItem(x,k) is unreachable unless PyTuple_Check(x) and PyTuple_Size(x)==N>k held
 R19.life    a binding whose target returns a view of self's storage without sharing the handle carries a policy that
             keeps self alive for the result's lifetime (custodian 0 = result, ward 1 = self)
@@ -189,6 +191,38 @@ def rule_inv(fx, out):
             out.append(('R19.inv', oid, HOLDS, '_indices set on a view that aliases %s\'s storage' % src, f['loc']))
         else:
             out.append(('R19.inv', oid, VIOLATED, '_indices is set although _ptr is %s: the index table addresses the source\'s unmasked storage, not the compact copy of _length elements' % ('re-pointed to fresh storage (%s)' % reassigned[0]['rhs'] if reassigned else ptr), f['loc']))
+    return n
+
+OWNED = {'FixedArray': ('_ptr', '_handle'), 'FixedVArray': ('_ptr', '_handle'), 'FixedArray2D': ('_ptr', '_handle'),
+         'StringArrayT': ('_table', '_tableHandle'), 'FixedMatrix': ('_ptr', '_refcount')}
+
+def rule_own(fx, out):
+    """R19.own: a constructor that makes the new object refer to another object's storage (P(src.P)) also takes that object's
+    owner (H(src.H)): the handle / reference count is what keeps the storage alive once the source is gone"""
+    n = 0; seen = set()
+    for f in fx.fns:
+        if not f.get('ctor'): continue
+        cls = f.get('cls')
+        if cls not in OWNED or f.key in seen: continue
+        seen.add(f.key)
+        P_, H_ = OWNED[cls]
+        inits = {i['field']: i['text'] for i in f.get('inits', [])}
+        ptr = inits.get(P_)
+        if ptr is None: continue
+        m = re.match(r'^(\w+)(\.|->)%s$' % re.escape(P_), ptr)
+        if not m: continue            # caller-provided pointer (its handle, if any, is a separate parameter) or fresh storage
+        src = m.group(1)
+        n += 1
+        oid = 'own:%s(%s)' % (cls, ','.join(p['type'].replace('PyImath::', '') for p in f['params']))
+        h = inits.get(H_)
+        hw = [e for e in f.events if e['k'] == 'fieldw' and e['field'] == H_ and e['obj'] == 'this']
+        if h is None and not hw:
+            out.append(('R19.own', oid, VIOLATED, '%s(%s) refers to %s\'s storage but %s is left empty: nothing keeps that storage alive once %s is destroyed (dangling view)' % (P_, ptr, src, H_, src), f['loc'])); continue
+        txt = h if h is not None else hw[0]['rhs']
+        if re.search(r'\b%s(\.|->)%s\b' % (re.escape(src), re.escape(H_)), txt):
+            out.append(('R19.own', oid, HOLDS, '%s(%s), %s(%s)' % (P_, ptr, H_, txt), f['loc']))
+        else:
+            out.append(('R19.own', oid, VIOLATED, '%s(%s) refers to %s\'s storage but %s is initialised from %s, not from %s.%s' % (P_, ptr, src, H_, txt, src, H_), f['loc']))
     return n
 
 def rule_tuple(fx, out):
@@ -468,7 +502,7 @@ def rule_order2d(fx, out):
             out.append(('R19.order2d', 'order2d:%s@%s' % (sname(f), outer['loc'].rsplit(':', 2)[-2] if False else sname(f) + '/' + o_ + i_), VIOLATED if bad else HOLDS, bad or 'running counter %s: x index from the inner variable %s, y index from the outer variable %s' % (sorted(counters)[0], i_, o_), outer['loc']))
     return n
 
-RULES = [('order2d', rule_order2d), ('tmp', rule_tmp), ('acc', rule_acc), ('wguard', rule_wguard), ('wprop', rule_wprop), ('inv', rule_inv), ('tuple', rule_tuple), ('life', rule_life), ('buf', rule_buf), ('str', rule_str)]
+RULES = [('order2d', rule_order2d), ('tmp', rule_tmp), ('acc', rule_acc), ('wguard', rule_wguard), ('wprop', rule_wprop), ('inv', rule_inv), ('own', rule_own), ('tuple', rule_tuple), ('life', rule_life), ('buf', rule_buf), ('str', rule_str)]
 
 def emit(rep, out):
     seen = {}
@@ -492,7 +526,7 @@ def main(rep, ws, tier):
     for name, fnc in RULES: fnc(pos, pout)
     fired = set(r for r, oid, st, det, w in pout if st == VIOLATED)
     quiet = set(r for r, oid, st, det, w in pout if st == HOLDS)
-    need = {'R19.tmp', 'R19.acc', 'R19.wguard', 'R19.wprop', 'R19.inv', 'R19.tuple', 'R19.life', 'R19.buf', 'R19.str'}
+    need = {'R19.tmp', 'R19.acc', 'R19.wguard', 'R19.wprop', 'R19.inv', 'R19.own', 'R19.tuple', 'R19.life', 'R19.buf', 'R19.str'}
     if need - fired:
         rep.fail_incomplete('positive examples (selftest/pyrules_pos.cpp) no longer fire for %s' % sorted(need - fired))
     if (need - {'R19.tmp'}) - quiet:
@@ -513,7 +547,7 @@ def main(rep, ws, tier):
     from . import c19ir
     nidx = c19ir.main_idx(rep, ws)
     rep.floor('index-arithmetic obligations (IR)', nidx, 12)
-    floors = {'acc': 2, 'wguard': 40, 'wprop': 15, 'inv': 3, 'tuple': 8, 'life': 3, 'buf': 20, 'str': 5, 'order2d': 3}
+    floors = {'acc': 2, 'wguard': 40, 'wprop': 15, 'inv': 3, 'own': 6, 'tuple': 8, 'life': 3, 'buf': 20, 'str': 5, 'order2d': 3}
     for k, v in floors.items():
         rep.floor('R19.%s instances' % k, counts.get(k, 0), v)
     rep.floor('functions analysed for discarded exception objects', counts.get('tmp', 0), 3000)
